@@ -124,6 +124,13 @@ def finish_program(rng, prog, exprs_gen, declared):
     return prog
 
 
+def _sympy_knows(name):
+    """parse_number has no guard: a symbol that sympy defines (`rad`, `beta`, `S`...) is not a symbol there"""
+    import sympy
+
+    return hasattr(sympy, name)
+
+
 def gen_scalar_program(rng, i, jit):
     nv = rng.choice([1, 2, 2, 3, 3])
     names = rng.sample(GENERAL_VARS, rng.randint(0, nv)) if nv else []
@@ -242,7 +249,8 @@ def gen_scalar_program(rng, i, jit):
     kinds_ = X.kinds(prog["ast"])
     prog["parse_number"] = (not voc.ufuncs and not prog["indexed"] and not array_consts and not sig_none and
                             not (kinds_ & {"heav1", "heav2", "idx"}) and not any(k.startswith("cmp") for k in kinds_)
-                            and not (set(names) & RESERVED) and rng.random() < 0.5)
+                            and not (set(names) & RESERVED) and rng.random() < 0.5
+                            and not any(_sympy_knows(nm) for nm in X.symbols(prog["ast"])))
     return prog
 
 
@@ -485,7 +493,9 @@ def gen_malformed_program(rng, i):
     if what == "undefined-symbol":
         e = X.bi("add", e, X.un("call1", X.var(rng.choice(["w", "radius", "x1x", "xy"])), f=rng.choice(["exp", "sin"])))
     elif what == "synonym-and-definite":
-        e = X.bi("add", X.bi("add", e, X.un("call1", X.var("x1"), f="exp")), X.un("call1", X.var("x"), f="sin"))
+        # one term that contains both names inseparably (the generator does not know `x1`, so nothing
+        # it produced can cancel this term)
+        e = X.bi("add", e, X.un("call1", X.bi("mul", X.var("x"), X.var("x1")), f="atan"))
     else:
         pts = [[1.5] if rng.random() < 0.5 else [1.5, 0.5, 2.0]]
     prog = {"id": i, "kind": "malformed", "what": what, "rank": 0, "sig": sig, "sig_none": False, "consts": {},
